@@ -2,7 +2,8 @@
 # Idempotent: (re)create the overlay venv /verif/.venv with crosshair-tool + z3 from the offline wheelhouse.
 # The venv sees /venv's site-packages (pymodbus deps: six, twisted, serial) and /repo (pymodbus itself, working tree).
 set -e
-V=/verif/.venv
+HERE=$(cd "$(dirname "$0")/.." && pwd)
+V=$HERE/.venv
 REPO=${VERIF_REPO:-/repo}
 if [ -x "$V/bin/python" ] && "$V/bin/python" -c "import crosshair, z3, six" 2>/dev/null; then
   :
@@ -10,9 +11,11 @@ else
   rm -rf "$V"
   /venv/bin/python -m venv "$V"
   SP=$("$V/bin/python" -c "import sysconfig; print(sysconfig.get_paths()['purelib'])")
-  printf '/venv/lib/python3.12/site-packages\n' > "$SP/_overlay.pth"
+  printf '/venv/lib/python3.12/site-packages\n' > "$SP/_aaa_repo_overlay.pth"
   PIP_NO_INDEX=1 "$V/bin/pip" install -q --no-index --find-links /opt/veriftools/wheels crosshair-tool z3-solver >/dev/null
 fi
 SP=$("$V/bin/python" -c "import sysconfig; print(sysconfig.get_paths()['purelib'])")
-printf '/venv/lib/python3.12/site-packages\n%s\n' "$REPO" > "$SP/_overlay.pth"
+# the repository under analysis comes first so that it wins over /venv's editable install of /repo
+printf '%s\n/venv/lib/python3.12/site-packages\n' "$REPO" > "$SP/_aaa_repo_overlay.pth"
+rm -f "$SP/_overlay.pth"
 "$V/bin/python" -c "import crosshair, z3, pymodbus, six" 
